@@ -216,6 +216,16 @@ Qed.
 Theorem delivered_at_most_once b0 l : NoDup (delivered {| hi := 0; bm := b0 |} l).
 Proof. rewrite delivered_is_accepted. apply at_most_once_any_bitmap. Qed.
 
+(* signed frames: frames that do not verify leave no trace *)
+Lemma tdelivered_is_taccepted l : forall latest,
+  tdelivered latest l = taccepted latest (map fst (filter snd l)).
+Proof.
+  induction l as [|[t v] r IH]; intros latest; [reflexivity|].
+  cbn [tdelivered filter map taccepted snd fst]. destruct v; cbn [map taccepted fst].
+  - destruct (tcheck latest t) as [l' [|]]; rewrite IH; reflexivity.
+  - apply IH.
+Qed.
+
 (* a frame that does not open changes nothing *)
 Lemma failed_open_no_change s q : unseal_step s (q, false) = (s, false).
 Proof. reflexivity. Qed.
